@@ -463,6 +463,53 @@ def items_limits(src):
     yield ("Limits", "textNewLimits", ": List Nat", newlimits, "[513, 763, 763, 763]")
 
 
+def items_fields(src):
+    """field-level constants of decoders: ERROR-CODE class mask / class range / number bound / code formula,
+    address family bytes, TCP framing prefix"""
+    def errcode():
+        txt = src.get("stun-types/src/attribute/error.rs")
+        body = fn_body(txt, r"impl(?:\s*<[^>]*>)?\s+TryFrom\s*<\s*&\s*RawAttribute(?:\s*<[^>]*>)?\s*>\s+for\s+ErrorCode\s*\{")
+        if body is None:
+            raise XlateError("TryFrom for ErrorCode not found")
+        m1 = re.search(r"let\s+code_h\s*=\s*\(raw\.value\[2\]\s*&\s*([0-9a-fx_]+)\)\s*as\s+u16\s*;", body)
+        m2 = re.search(r"if\s+!\((\d+)\.\.(\d+)\)\.contains\(&code_h\)\s*\|\|\s*code_tens\s*>\s*(\d+)\s*\{", body)
+        m3 = re.search(r"let\s+code\s*=\s*code_h\s*\*\s*(\d+)\s*\+\s*code_tens\s*;", body)
+        if not (m1 and m2 and m3):
+            raise XlateError("ErrorCode decoder shape")
+        return f"[{lit(m1.group(1))}, {m2.group(1)}, {m2.group(2)}, {m2.group(3)}, {m3.group(1)}]"
+    yield ("Fields", "errorCodeDecode", ": List Nat", errcode, "[7, 3, 7, 99, 100]")
+
+    def family():
+        txt = src.get(ADDR)
+        b = fn_body(txt, r"pub\(crate\)\s+fn\s+to_byte\s*\(\s*self\s*\)\s*->\s*u8\s*\{")
+        f = fn_body(txt, r"pub\(crate\)\s+fn\s+from_byte\s*\(\s*byte\s*:\s*u8\s*\)[^{]*\{")
+        if b is None or f is None:
+            raise XlateError("AddressFamily::to_byte/from_byte not found")
+        m4 = re.search(r"AddressFamily::IPV4\s*=>\s*(0x[0-9a-f]+|\d+)", b)
+        m6 = re.search(r"AddressFamily::IPV6\s*=>\s*(0x[0-9a-f]+|\d+)", b)
+        r4 = re.search(r"(0x[0-9a-f]+|\d+)\s*=>\s*Ok\(AddressFamily::IPV4\)", f)
+        r6 = re.search(r"(0x[0-9a-f]+|\d+)\s*=>\s*Ok\(AddressFamily::IPV6\)", f)
+        arms = re.findall(r"=>", f)
+        if not (m4 and m6 and r4 and r6) or len(arms) != 3:
+            raise XlateError("AddressFamily byte mapping shape")
+        return f"[{lit(m4.group(1))}, {lit(m6.group(1))}, {lit(r4.group(1))}, {lit(r6.group(1))}]"
+    yield ("Fields", "addressFamilyBytes", ": List Nat", family, "[1, 2, 1, 2]")
+
+    def tcp():
+        txt = src.get(AGENT)
+        b = fn_body(txt, r"pub\s+fn\s+pull_data\s*\(\s*&mut\s+self\s*\)[^{]*\{")
+        if b is None:
+            raise XlateError("pull_data not found")
+        m1 = re.search(r"if\s+self\.buf\.len\(\)\s*<\s*(\d+)\s*\{", b)
+        m2 = re.search(r"let\s+data_length\s*=\s*\(BigEndian::read_u16\(&self\.buf\[\.\.(\d+)\]\)\s*as\s+usize\)\s*\+\s*(\d+)\s*;", b)
+        m3 = re.search(r"if\s+self\.buf\.len\(\)\s*<\s*data_length\s*\{", b)
+        m4 = re.search(r"Some\(bytes\[(\d+)\.\.\]\.to_vec\(\)\)", b)
+        if not (m1 and m2 and m3 and m4):
+            raise XlateError("pull_data shape")
+        return f"[{m1.group(1)}, {m2.group(1)}, {m2.group(2)}, {m4.group(1)}]"
+    yield ("Fields", "tcpFraming", ": List Nat", tcp, "[2, 2, 2, 2]")
+
+
 def generate(repo, gen_dir):
     """writes <gen_dir>/<Group>.lean for every item group; files are only rewritten when their
     content changes (so that lake's traces stay valid)."""
@@ -472,7 +519,7 @@ def generate(repo, gen_dir):
     extracted, fallbacks = [], []
     groups = {}
     import itertools
-    for group, name, params, thunk, fallback in itertools.chain(items(src), items_xor(src), items_attr(src), items_agent(src), items_limits(src)):
+    for group, name, params, thunk, fallback in itertools.chain(items(src), items_xor(src), items_attr(src), items_agent(src), items_limits(src), items_fields(src)):
         try:
             body = thunk()
             extracted.append(name)
